@@ -104,6 +104,9 @@ type Campaign struct {
 	Weight int
 	// Enumerated campaigns report completion.
 	Enumerated bool
+	// Fresh: every run of the campaign executes in a fresh worker process (first-call-in-process
+	// behaviour: lazily initialised package state, cold caches and pools).
+	Fresh bool
 	Forced     func(tier string, seed uint64, idx uint64) map[string][]uint64
 	Run        func(c *Ctx)
 }
